@@ -73,6 +73,26 @@ def model_lines(c, r):
         for h in r["ok"]["hist"]:
             if isinstance(h, list) and h != c["D"]: ls.append(["linq"] + g + [0] + D + common.enc_list(h))
     return ls
+def _elements_check(c, o):
+    """the drawn element lists against their specification (definition level, no model involved): used by judge() and by oracle()"""
+    G = c["G"]; names = G["names"]; n = G["n"]; out = []
+    # elements against the specification
+    M = common.matrix(G); exp_edges = sorted(("%s-%s-%d" % (names[a], names[b], i), (names[a], names[b])) for a in range(n) for b in range(a + 1, n) for i in range(M[a][b]))
+    odir = {(min(a, b), max(a, b)): (a, b) for a, b in c["ori"]}
+    keys = [("el_graph", lambda v: names[v], M), ("el_div", lambda v: "%s\n%d" % (names[v], c.get("DL", c["D"])[v]), M), ("el_ori", lambda v: names[v], M)]
+    if "el2_graph" in o:
+        M2 = common.matrix(common.mk_graph_like(G, G["edges"] + _grow2(G)))
+        keys += [("el2_graph", lambda v: names[v], M2), ("el2_div", lambda v: "%s\n%d" % (names[v], c.get("DL", c["D"])[v]), M2), ("el2_div_old", lambda v: "%s\n%d" % (names[v], c.get("DL", c["D"])[v]), M2), ("el2_ori", lambda v: names[v], M2)]
+    for key, lab, MM in keys:
+        exp_edges = sorted(("%s-%s-%d" % (names[a], names[b], i), (names[a], names[b])) for a in range(n) for b in range(a + 1, n) for i in range(MM[a][b]))
+        nd, ed = o[key]
+        if [list(x) for x in nd] != sorted([names[v], lab(v)] for v in range(n)): out.append("%s: node elements %s do not mirror the object" % (key, nd))
+        if sorted((e[0], tuple(e[1])) for e in ed) != [(i, tuple(sorted(p))) for i, p in exp_edges]: out.append("%s: edge elements do not give one element per unit of multiplicity" % key)
+        for e in ed:
+            a, b = sorted(names.index(x) for x in e[1]); want = odir.get((a, b)) if key in ("el_ori", "el2_ori") else None
+            if (want is None) != (not e[2]) or (e[3] == "triangle") != (want is not None) or (want is not None and list(e[4]) != [names[want[0]], names[want[1]]]):
+                out.append("%s: arrow on element %s does not match the stored direction %s" % (key, e, want)); break
+    return out
 def judge(c, r, mo):
     if "exc" in r: return [{"what": "implementation raised %s: %s" % (r["exc"], r.get("msg"))}]
     o = r["ok"]; out = []; G = c["G"]; names = G["names"]; n = G["n"]
@@ -97,22 +117,7 @@ def judge(c, r, mo):
                     if mo[k][0] not in ("1", "FUEL"): out.append({"what": "recorded snapshot %s is not linearly equivalent to the input %s" % (h, c["D"])}); break
                     k += 1
             if not o["independent"]: out.append({"what": "recorded snapshots are not independent objects (mutating one / the returned divisor changed another)"})
-    # elements against the specification
-    M = common.matrix(G); exp_edges = sorted(("%s-%s-%d" % (names[a], names[b], i), (names[a], names[b])) for a in range(n) for b in range(a + 1, n) for i in range(M[a][b]))
-    odir = {(min(a, b), max(a, b)): (a, b) for a, b in c["ori"]}
-    keys = [("el_graph", lambda v: names[v], M), ("el_div", lambda v: "%s\n%d" % (names[v], c.get("DL", c["D"])[v]), M), ("el_ori", lambda v: names[v], M)]
-    if "el2_graph" in o:
-        M2 = common.matrix(common.mk_graph_like(G, G["edges"] + _grow2(G)))
-        keys += [("el2_graph", lambda v: names[v], M2), ("el2_div", lambda v: "%s\n%d" % (names[v], c.get("DL", c["D"])[v]), M2), ("el2_div_old", lambda v: "%s\n%d" % (names[v], c.get("DL", c["D"])[v]), M2), ("el2_ori", lambda v: names[v], M2)]
-    for key, lab, MM in keys:
-        exp_edges = sorted(("%s-%s-%d" % (names[a], names[b], i), (names[a], names[b])) for a in range(n) for b in range(a + 1, n) for i in range(MM[a][b]))
-        nd, ed = o[key]
-        if [list(x) for x in nd] != sorted([names[v], lab(v)] for v in range(n)): out.append({"what": "%s: node elements %s do not mirror the object" % (key, nd)})
-        if sorted((e[0], tuple(e[1])) for e in ed) != [(i, tuple(sorted(p))) for i, p in exp_edges]: out.append({"what": "%s: edge elements do not give one element per unit of multiplicity" % key})
-        for e in ed:
-            a, b = sorted(names.index(x) for x in e[1]); want = odir.get((a, b)) if key in ("el_ori", "el2_ori") else None
-            if (want is None) != (not e[2]) or (e[3] == "triangle") != (want is not None) or (want is not None and list(e[4]) != [names[want[0]], names[want[1]]]):
-                out.append({"what": "%s: arrow on element %s does not match the stored direction %s" % (key, e, want)}); break
+    out += [{"what": w} for w in _elements_check(c, o)]
     return out[:3]
 def oracle(c, r):
     if r is None or "exc" in r: return {"violates": True, "why": "raised"}
@@ -122,5 +127,6 @@ def oracle(c, r):
         if not o["hist"] or not o.get("independent", True): why.append("history empty or snapshots aliased")
         elif any(not O.lin_equiv(m, c["D"], h) for h in o["hist"] if isinstance(h, list)): why.append("a snapshot left the class")
         elif o["on"][1] is not None and o["hist"][-1] != o["on"][1]: why.append("last snapshot != returned divisor")
-    return {"violates": bool(why), "why": why, "note": "element-list mismatches are judged against the specification in judge()"}
+    why += _elements_check(c, o)
+    return {"violates": bool(why), "why": why}
 def nontrivial(cases): return len({str((c["G"]["edges"], c["D"])) for c in cases if min(c["D"]) < 0})
